@@ -159,3 +159,8 @@ func BestMask(data []byte, v int, l Level) int {
 	}
 	return best
 }
+
+// PenaltyParts returns the four features of Penalty separately (N1, N2, N3, N4 scores).
+func PenaltyParts(m [][]bool) [4]int {
+	return [4]int{penaltyN1(m), penaltyN2(m), penaltyN3(m, true), penaltyN4(m)}
+}
